@@ -11,10 +11,12 @@ package main
 
 import (
 	"fmt"
+	"hash/fnv"
 	"os"
 	"runtime/debug"
 	"runtime/pprof"
 	"sort"
+	"strconv"
 	"strings"
 	"sync"
 	"sync/atomic"
@@ -39,6 +41,8 @@ const (
 )
 
 var ansName = [nAns]string{"has", "404+repl-ok", "404+repl-fail", "maint-flag", "maint-status", "error"}
+
+var shardNames = []string{"shard0", "shard1"}
 
 var types = []object.Type{object.TypeRegular, object.TypeTombstone, object.TypeLock, object.TypeLink}
 
@@ -72,7 +76,7 @@ func (c tcase) String() string {
 type outcome struct {
 	fp, what string
 	class    string // outcome class for vacuity accounting
-	trace    string // what the policer did (for distinct counting)
+	trace    []byte // what the policer did (for distinct counting)
 	contact  bool
 	deleted  bool
 }
@@ -117,10 +121,7 @@ func run(w *polworld.World, c tcase) outcome {
 		}
 		return polworld.ErrGeneric
 	}
-	var shards []string
-	for i := 0; i < c.Shards; i++ {
-		shards = append(shards, fmt.Sprintf("shard%d", i))
-	}
+	shards := shardNames[:c.Shards]
 	switch c.Kind {
 	case "rep":
 		for _, r := range c.Reps {
@@ -142,7 +143,13 @@ func run(w *polworld.World, c tcase) outcome {
 func judge(w *polworld.World, c tcase) (o outcome) {
 	o.deleted = len(w.Deletes) > 0
 	o.contact = len(w.HeadCalls)+len(w.ReplCalls) > 0
-	o.trace = fmt.Sprint(w.HeadCalls, w.HeadOK, w.ReplCalls, w.ReplOK, len(w.Deletes), len(w.ShardTrims))
+	for _, l := range [][]int{w.HeadCalls, w.HeadOK, w.ReplCalls, w.ReplOK} {
+		for _, n := range l {
+			o.trace = append(o.trace, byte(n))
+		}
+		o.trace = append(o.trace, 0xff)
+	}
+	o.trace = append(o.trace, byte(len(w.Deletes)), byte(len(w.ShardTrims)))
 	switch {
 	case o.deleted && len(w.ReplOK) > 0:
 		o.class = "dropped-after-replication"
@@ -336,14 +343,17 @@ func genLists(nRules int, lens []int, maxRemotes int, f func(lists [][]int, remo
 
 type job struct {
 	base tcase
-	k    int // number of remote nodes
+	k    int   // number of remote nodes
+	tys  []int // object types (nil = default of the kind)
 }
 
 var stopProf = func() {}
 
 func main() {
 	r := ev.Start("C26", ev.Exploration)
-	debug.SetGCPercent(3000) // live heap is a few MB; the default makes 16 workers collect continuously
+	if os.Getenv("GOGC") == "" {
+		debug.SetGCPercent(400)
+	}
 	if pf := os.Getenv("VERIF_PROF"); pf != "" { // developer aid only
 		f, _ := os.Create(pf)
 		pprof.StartCPUProfile(f)
@@ -367,25 +377,36 @@ func main() {
 	for n := 1; n <= 5; n++ {
 		genLists(1, []int{n}, 5, func(lists [][]int, k int) {
 			for rep := 1; rep <= 3 && rep <= n; rep++ {
-				jobs = append(jobs, job{tcase{Kind: "rep", Lists: lists, Reps: []int{rep}}, k})
+				jobs = append(jobs, job{tcase{Kind: "rep", Lists: lists, Reps: []int{rep}}, k, nil})
 			}
 		})
 	}
 	oneRuleJobs := len(jobs)
 	// --- REP, two rules: overlapping lists (reduced sizes)
-	max2, maxK := 3, 4
-	if r.Thorough() {
-		max2, maxK = 4, 5
+	type b2 struct {
+		maxLen, maxK int
+		tys          []int
 	}
-	for n1 := 1; n1 <= max2; n1++ {
-		for n2 := 1; n2 <= max2; n2++ {
-			genLists(2, []int{n1, n2}, maxK, func(lists [][]int, k int) {
-				for r1 := 1; r1 <= 3 && r1 <= n1; r1++ {
-					for r2 := 1; r2 <= 3 && r2 <= n2; r2++ {
-						jobs = append(jobs, job{tcase{Kind: "rep", Lists: lists, Reps: []int{r1, r2}}, k})
+	bounds2 := []b2{{3, 3, []int{0, 1, 2, 3}}}
+	bounds2txt := "lists of 1..3 nodes over <=3 remote nodes + local"
+	if r.Thorough() {
+		bounds2 = []b2{{3, 5, []int{0, 1, 2, 3}}, {4, 4, []int{0, 2}}}
+		bounds2txt = "lists of 1..3 nodes over <=5 remote nodes + local (all types), and lists of 1..4 nodes over <=4 remote nodes + local (REGULAR and LOCK)"
+	}
+	for bi, b := range bounds2 {
+		for n1 := 1; n1 <= b.maxLen; n1++ {
+			for n2 := 1; n2 <= b.maxLen; n2++ {
+				genLists(2, []int{n1, n2}, b.maxK, func(lists [][]int, k int) {
+					if bi > 0 && n1 <= bounds2[0].maxLen && n2 <= bounds2[0].maxLen && k <= bounds2[0].maxK {
+						return // already covered (with all types) by the first bound
 					}
-				}
-			})
+					for r1 := 1; r1 <= 3 && r1 <= n1; r1++ {
+						for r2 := 1; r2 <= 3 && r2 <= n2; r2++ {
+							jobs = append(jobs, job{tcase{Kind: "rep", Lists: lists, Reps: []int{r1, r2}}, k, b.tys})
+						}
+					}
+				})
+			}
 		}
 	}
 	twoRuleJobs := len(jobs) - oneRuleJobs
@@ -395,16 +416,16 @@ func main() {
 		for n := tot; n <= 5; n++ {
 			genLists(1, []int{n}, 5, func(lists [][]int, k int) {
 				for p := 0; p < tot; p++ {
-					jobs = append(jobs, job{tcase{Kind: "ec-part", Lists: lists, ECData: rule[0], ECParity: rule[1], Part: p}, k})
+					jobs = append(jobs, job{tcase{Kind: "ec-part", Lists: lists, ECData: rule[0], ECParity: rule[1], Part: p}, k, nil})
 				}
-				jobs = append(jobs, job{tcase{Kind: "ec-plain", Lists: lists, ECData: rule[0], ECParity: rule[1]}, k})
+				jobs = append(jobs, job{tcase{Kind: "ec-plain", Lists: lists, ECData: rule[0], ECParity: rule[1]}, k, nil})
 			})
 		}
 	}
 	ecJobs := len(jobs) - oneRuleJobs - twoRuleJobs
 
 	var mu sync.Mutex
-	traces := map[string]struct{}{}
+	traces := map[uint64]struct{}{}
 	classes := map[string]int64{}
 	var deletes, contacted atomic.Int64
 	expired := atomic.Bool{}
@@ -422,7 +443,7 @@ func main() {
 				localListed = true
 			}
 		}
-		ltraces := map[string]struct{}{}
+		ltraces := map[uint64]struct{}{}
 		lclasses := map[string]int64{}
 		sizes := make([]int, j.k)
 		for i := range sizes {
@@ -438,7 +459,11 @@ func main() {
 			}
 			if o.contact {
 				contacted.Add(1)
-				ltraces[fmt.Sprint(shape, c.Type, c.InNetmap, o.trace)] = struct{}{}
+				h := fnv.New64a()
+				h.Write([]byte(shape))
+				h.Write([]byte{byte(c.Type), byte(len(o.trace))})
+				h.Write(o.trace)
+				ltraces[h.Sum64()] = struct{}{}
 			}
 			if o.fp != "" {
 				r.Violation(o.fp, o.what, c)
@@ -459,6 +484,9 @@ func main() {
 			tys, shs = []int{0}, []int{1, 2}
 		case "ec-plain":
 			tys, shs = []int{1, 2, 3}, []int{2}
+		}
+		if j.tys != nil {
+			tys = j.tys
 		}
 		nms = []bool{true}
 		if !localListed {
@@ -490,7 +518,7 @@ func main() {
 		mu.Unlock()
 	})
 	for k := range traces {
-		r.Nontrivial(k)
+		r.Nontrivial(strconv.FormatUint(k, 16))
 	}
 	var cl []string
 	for k, v := range classes {
@@ -502,7 +530,7 @@ func main() {
 	r.Set("cases_with_local_copy_dropped", deletes.Load())
 	r.Set("cases_contacting_remote_nodes", contacted.Load())
 	r.Set("placement_shapes", map[string]int{"rep_one_rule": oneRuleJobs, "rep_two_rules": twoRuleJobs, "ec": ecJobs})
-	r.Rule(fmt.Sprintf("placements up to renaming of remote nodes: ONE REP rule = every list of 1..5 nodes with the local node at every position or absent x REP 1..3 (full product); TWO REP rules = every ordered pair of lists of 1..%d nodes over <=%d remote nodes + local, lists sharing nodes in every way, REP 1..3 each; EC-only container with rule 2/1, 1/1 or 1/2 over 2..5 nodes: every part index, and TOMBSTONE/LOCK/LINK objects; x every remote node answering one of {has, 404+replica accepted, 404+replica refused, flagged maintenance, NODE_UNDER_MAINTENANCE status, error} x type REGULAR/TOMBSTONE/LOCK/LINK x 1-2 local shards (2 only for two-rule and ec-plain cases) x in/out of the network map when no list has the local node. distinct non-trivial = distinct (placement shape, type, policer trace [nodes HEADed, headers read, replicas sent/acked, deletes]) with at least one remote node contacted", max2, maxK))
+	r.Rule(fmt.Sprintf("placements up to renaming of remote nodes: ONE REP rule = every list of 1..5 nodes with the local node at every position or absent x REP 1..3 (full product); TWO REP rules = every ordered pair of %s, lists sharing nodes in every way, REP 1..3 each; EC-only container with rule 2/1, 1/1 or 1/2 over 2..5 nodes: every part index, and TOMBSTONE/LOCK/LINK objects; x every remote node answering one of {has, 404+replica accepted, 404+replica refused, flagged maintenance, NODE_UNDER_MAINTENANCE status, error} x type REGULAR/TOMBSTONE/LOCK/LINK x 1-2 local shards (2 only for two-rule and ec-plain cases) x in/out of the network map when no list has the local node. distinct non-trivial = distinct (placement shape, type, policer trace [nodes HEADed, headers read, replicas sent/acked, deletes]) with at least one remote node contacted", bounds2txt))
 	r.Exhaustive(!expired.Load())
 	r.Assume("every node answers the same way each time it is asked within one policer pass (per-node deterministic answers)",
 		"GetNodesForObject succeeds (missing-container clean-up is outside the property); mixed REP+EC policies and objects that are invalid for the policy (EC attributes without EC rule, REGULAR non-part object in an EC-only container: removed as garbage by design) are not enumerated",
